@@ -455,6 +455,7 @@ func dispMain(args []string) {
 			}
 		}
 		samples = append(samples, cases[0], cases[len(cases)/2])
+		stats["cases"] = len(cases)
 		b.WriteString("Definition cases : list dcase := [\n " + strings.Join(cases, ";\n ") + "\n].\n")
 	} else {
 		for k := 0; k < *n; k++ {
